@@ -465,57 +465,58 @@ impl Avfx {
                     avfx.ags_enabled = read_bool(&mut cursor)?;
                 }
                 AvfxData::NumSchedulers => {
-                    todo!()
+                    // not decoded yet: the block's payload is skipped below
                 }
                 AvfxData::NumTimelines => {
-                    todo!()
+                    // not decoded yet: the block's payload is skipped below
                 }
                 AvfxData::NumEmitters => {
-                    todo!()
+                    // not decoded yet: the block's payload is skipped below
                 }
                 AvfxData::NumParticles => {
-                    todo!()
+                    // not decoded yet: the block's payload is skipped below
                 }
                 AvfxData::NumEffectors => {
-                    todo!()
+                    // not decoded yet: the block's payload is skipped below
                 }
                 AvfxData::NumBinders => {
-                    todo!()
+                    // not decoded yet: the block's payload is skipped below
                 }
                 AvfxData::NumTextures => {
-                    todo!()
+                    // not decoded yet: the block's payload is skipped below
                 }
                 AvfxData::NumModels => {
-                    todo!()
+                    // not decoded yet: the block's payload is skipped below
                 }
                 AvfxData::Scheduler => {
-                    todo!()
+                    // not decoded yet: the block's payload is skipped below
                 }
                 AvfxData::Timeline => {
-                    todo!()
+                    // not decoded yet: the block's payload is skipped below
                 }
                 AvfxData::Emitter => {
-                    todo!()
+                    // not decoded yet: the block's payload is skipped below
                 }
                 AvfxData::Particle => {
-                    todo!()
+                    // not decoded yet: the block's payload is skipped below
                 }
                 AvfxData::Effector => {
-                    todo!()
+                    // not decoded yet: the block's payload is skipped below
                 }
                 AvfxData::Binder => {
-                    todo!()
+                    // not decoded yet: the block's payload is skipped below
                 }
                 AvfxData::Texture => {
-                    todo!()
+                    // not decoded yet: the block's payload is skipped below
                 }
                 AvfxData::Model => {
-                    todo!()
+                    // not decoded yet: the block's payload is skipped below
                 }
             }
             let new_pos = cursor.position();
             let read_bytes = (new_pos - last_pos) - 8;
-            let padding = block.size as u64 - read_bytes;
+            // a size field smaller than what was read is a malformed block
+            let padding = (block.size as u64).checked_sub(read_bytes)?;
             cursor.seek(SeekFrom::Current(padding as i64)).ok()?;
         }
 
